@@ -354,4 +354,95 @@ def schemaValid (c : Cfg) : Bool :=
   c.hookOn.all (fun r => !(C12.dontRestartOn.contains r.name)) &&
     (match c.maxRestarts with | some m => decide (-1 ≤ m) | none => true)
 
+/-! ## The loader: restart policy written in the document -> policy the runtime sees
+
+`FlowIR.inject_default_values_to_component` (flowir.py): `workflowAttributes` of the component overrides
+`default_component_structure()`; `maxRestarts` and `restartHookFile` default to None (kept as written: 0 stays 0,
+`''` stays `''`); `restartHookOn` is a list and gets the default list only when it `is None`, i.e. is missing. -/
+
+/-- the restart policy as written in the component's `workflowAttributes` (`none` = the key is missing) -/
+structure Written where
+  maxRestarts : Option Int
+  hookFile : Option String
+  hookOn : Option (List Reason)
+  deriving Repr
+
+/-- the restart policy the runtime reads from `job.workflowAttributes` -/
+structure Seen where
+  maxRestarts : Option Int
+  hookFile : Option String
+  hookOn : List Reason
+  deriving DecidableEq, Repr
+
+/-- `default_component_structure()['workflowAttributes']['restartHookOn']` -/
+def defaultHookOn : List Reason := Reason.all.filter (fun r => C12.defaultRestartHookOn.contains r.name)
+
+/-- the loader's defaulting -/
+def load (w : Written) : Seen :=
+  ⟨w.maxRestarts, w.hookFile, match w.hookOn with | some l => l | none => defaultHookOn⟩
+
+/-- a defaulting that treats every falsy value as missing (`written or default`): kept only for `St4sd.Witness.C12` -/
+def loadFalsy (w : Written) : Seen :=
+  ⟨match w.maxRestarts with | some 0 => none | m => m,
+   match w.hookFile with | some "" => none | f => f,
+   match w.hookOn with | some (r :: l) => r :: l | _ => defaultHookOn⟩
+
+/-- the configuration `Engine.restart` / `Controller._restartComponent` work with, given the loaded policy and what
+else the component is (backend, engine kind, what importing ITS hook file gives) -/
+def Seen.cfg (p : Seen) (simulator repeating : Bool) (m : HookModule) : Cfg :=
+  ⟨p.maxRestarts, (match p.hookFile with | some f => f != "" | none => false), p.hookOn, simulator, repeating, m⟩
+
+/-! ## Several components of one experiment
+
+Every component has its own engine (own counters) and names its own hook file (`restartHookFile`, `restart.py`
+when missing); `Engine.restart` imports THAT file of the instance's `hooks` directory at every restart attempt.
+`files` = what the `Restart` function of each hook file of the instance answers. -/
+
+/-- a component of the experiment: its configuration and the name of the hook file it uses -/
+structure MCfg where
+  cfg : Cfg
+  hookFile : String
+  deriving Repr
+
+/-- one task exit of component `comp` (the `hook` field of `inp` is not read: the answer comes from the file) -/
+structure MInp where
+  comp : Nat
+  inp : Inp
+  deriving Repr
+
+/-- the exit as the component's engine sees it: the hook answer is the one of the component's own hook file -/
+def ownInp (files : String → HookAns) (c : MCfg) (i : Inp) : Inp := { i with hook := files c.hookFile }
+
+/-- one exit of one component: only that component's state changes -/
+def mstep (fin : Bool) (files : String → HookAns) (cf : Nat → MCfg) (ss : Nat → St) (m : MInp) : (Nat → St) × Ev :=
+  let r := step fin (cf m.comp).cfg (ss m.comp) (ownInp files (cf m.comp) m.inp)
+  (fun j => if j = m.comp then r.1 else ss j, ⟨m.inp.reason, r.2, r.1⟩)
+
+/-- chronological events (component, event) of an interleaved history of exits of several components -/
+def mexec (fin : Bool) (files : String → HookAns) (cf : Nat → MCfg) : (Nat → St) → List MInp → List (Nat × Ev)
+  | _, [] => []
+  | ss, m :: ms =>
+    let r := mstep fin files cf ss m
+    (m.comp, r.2) :: mexec fin files cf r.1 ms
+
+/-- the events of component `k` -/
+def eventsOf (k : Nat) (l : List (Nat × Ev)) : List Ev := (l.filter (fun e => e.1 == k)).map (·.2)
+
+/-- the exits of component `k`, answered by its own hook file -/
+def ownInps (files : String → HookAns) (cf : Nat → MCfg) (k : Nat) (ms : List MInp) : List Inp :=
+  (ms.filter (fun m => m.comp == k)).map (fun m => ownInp files (cf k) m.inp)
+
+/-- a variant that imports the hook once per instance (cache keyed by the `hooks` directory, not by the file): the
+`Restart` function of whichever component asked first answers for every component.  Kept only for
+`St4sd.Witness.C12`. -/
+def mexecCached (fin : Bool) (files : String → HookAns) (cf : Nat → MCfg) :
+    Option String → (Nat → St) → List MInp → List (Nat × Ev)
+  | _, _, [] => []
+  | cache, ss, m :: ms =>
+    let c := cf m.comp
+    let used := cache.getD c.hookFile
+    let r := step fin c.cfg (ss m.comp) { m.inp with hook := files used }
+    let cache' := if stepAsksHook c.cfg (ss m.comp) m.inp then some used else cache
+    (m.comp, ⟨m.inp.reason, r.2, r.1⟩) :: mexecCached fin files cf cache' (fun j => if j = m.comp then r.1 else ss j) ms
+
 end St4sd.Restart
